@@ -1,14 +1,15 @@
 package props
 
 import (
-	"strconv"
 	"context"
 	"fmt"
 	"github.com/ajitpratap0/GoSQLX/pkg/sql/token"
 	"math/rand"
 	"runtime"
 	"runtime/debug"
+	"strconv"
 	"strings"
+	"time"
 
 	"github.com/ajitpratap0/GoSQLX/pkg/models"
 	"github.com/ajitpratap0/GoSQLX/pkg/sql/keywords"
@@ -29,9 +30,14 @@ func c08Parent(c *mon.Ctx) {
 	c.Assumptions = []string{"a pool round trip or Reset() returns the instance to the default configuration; Release() is not assumed to change options", "pool steps in which the pool did not hand back the same object are not counted"}
 	per := 1200
 	if c.Tier == "thorough" {
-		per = 40000
+		per = 32000
 	}
 	sh := shards("plain", "histories", 16, "-n", fmt.Sprint(per))
+	for i := range sh {
+		// the watchdog is there for a shard that hangs, not for a loaded machine: a thorough shard takes eight
+		// minutes on an idle one
+		sh[i].Timeout = 40 * time.Minute
+	}
 	res := c.RunShards(sh, 16)
 	c.ClassifyDeaths(res, "histories complete")
 	if c.Stats["pool_reused"] == 0 {
